@@ -58,7 +58,7 @@ static const struct monitor *const ALLMONS[] = {
 
 static const struct { const char *pfx; enum kind k; } KTAB[] = {
     { "hold", K_HOLD }, { "tadd", K_TADD }, { "tset", K_TSET }, { "tcancel", K_TCANCEL },
-    { "tclro", K_TCLEARO }, { "tclear", K_TCLEAR }, { "yield", K_YIELD }, { "resume", K_RESUME }, { "waitp", K_WAITP },
+    { "tclro", K_TCLEARO }, { "taddo", K_TADDO }, { "cremoveb", K_CREMOVEB }, { "ccancelb", K_CCANCELB }, { "tclear", K_TCLEAR }, { "yield", K_YIELD }, { "resume", K_RESUME }, { "waitp", K_WAITP },
     { "waite", K_WAITE }, { "int", K_INT }, { "stopself", K_STOPSELF }, { "stop", K_STOP },
     { "exit", K_EXIT }, { "return", K_RETURN }, { "prio", K_PRIO }, { "racq", K_RACQ },
     { "rpre", K_RPRE }, { "rrel", K_RREL }, { "pacq", K_PACQ }, { "ppre", K_PPRE }, { "prel", K_PREL },
@@ -394,7 +394,7 @@ static bool enabled(int p, const struct opdef *od)
         return q != p && q < D.P && D.pstate[q] != PS_CREATED;
     case K_WAITE:
         return q < NENVEV && D.envev[q] != 0 && cmb_event_is_scheduled(D.envev[q]);
-    case K_INT: case K_STOP: case K_TCLEARO:
+    case K_INT: case K_STOP: case K_TCLEARO: case K_TADDO:
         return q != p && q < D.P && proc_started(q);
     case K_PRIO:
         return q < D.P && D.inited[q];
@@ -420,7 +420,7 @@ static bool enabled(int p, const struct opdef *od)
         return D.has_pq && D.pq_handle[p] != 0 && cmb_priorityqueue_position(&D.pq, D.pq_handle[p]) != 0;
     case K_CWAIT: case K_CSIG: case K_SETX:
         return D.has_cond || od->kind == K_SETX;
-    case K_CCANCEL: case K_CREMOVE:
+    case K_CCANCEL: case K_CREMOVE: case K_CREMOVEB: case K_CCANCELB:
         return D.has_cond && q != p && q < D.P && D.inited[q];
     case K_CSUB:
         return D.has_cond && D.nres > 0 && D.sub_res == 0;
@@ -736,6 +736,14 @@ static int64_t do_op(int p, const struct opdef *od)
         cmb_process_timers_clear(me);
         D.ntimers[p] = 0;
         break;
+    case K_TADDO:
+        /* somebody else arms a timer (two time units, application-defined signal) for a typically suspended process */
+        h = cmb_process_timer_add(&(*D.procp[q]), 2.0 * des_tscale, sig_timer(q, 2 + p));
+        c->out = h;
+        if (D.ntimers[q] < MAXTIMERS) {
+            D.timers[q][D.ntimers[q]++] = h;
+        }
+        break;
     case K_TCLEARO:
         /* somebody else clears the timers of a (typically suspended) process */
         cmb_process_timers_clear(&(*D.procp[q]));
@@ -871,6 +879,16 @@ static int64_t do_op(int p, const struct opdef *od)
             break;
         }
         ret = cmb_condition_remove(&D.cond, &(*D.procp[q]));
+        break;
+    case K_CREMOVEB:
+    case K_CCANCELB:
+        /* the second condition, at which nobody ever waits: there is nothing to take out, and nothing else may change */
+        ret = od->kind == K_CREMOVEB ? cmb_condition_remove(&D.cond_b, &(*D.procp[q]))
+                                     : cmb_condition_cancel(&D.cond_b, &(*D.procp[q]));
+        if (ret != 0) {
+            VFAIL("c13:found-at-a-condition-nobody-waits-at", "%s of P%d at the second condition, where nobody waits, returned true",
+                  od->name, q);
+        }
         break;
     case K_CSUB:
         cmb_condition_subscribe(&D.cond, &D.res[0].guard);
